@@ -68,12 +68,26 @@ earlier inductive lemma (for the same free constants) as a hypothesis: that is a
     round trip GPR.from_string(gpr.to_string()) (C08) as the entry invariant - not instantiated here.
 (4) Gene.knock_out / Reaction.knock_out / knock_out_model_genes inside a context register nothing themselves: every registration is
     made by the `resettable` wrappers of `Gene.functional` and `Reaction.bounds` they go through, one per changed attribute, in the
-    order of the changes.
+    order of the changes.  contracts/c03_knockout_ctx.py puts Reaction.knock_out and Gene.knock_out under a second, in-context
+    contract (real sources, wrapper-then-body) and derives `undo-restores` from those post-conditions and the closed form (2).  Here:
         knock_out/undo-restores:{reaction,gene-step}   over the shapes of the PROVED post-conditions (c01_lp `_set_post`,
-                                         c07_knockout `_ko_effect`): the registered undos, replayed LIFO, give back functional,
-                                         lb, ub and the variable bounds of every reaction; the loop over the gene's reactions is
-                                         covered by CI/step applied once per changed reaction (k = 1) after the k <= 1 step of the
-                                         `functional` setter - no separate induction is needed.
+                                         c07_knockout `_ko_effect`) with the exact map F: one reaction's bounds undo gives back lb,
+                                         ub and the four variable bounds; the knock-out and the undo of x leave the other reactions'
+                                         cells alone (frame), so CI/step applies once per changed reaction (k = 1).
+    ONE known raising operation does NOT satisfy the step: `with model: reaction *= 0` (Reaction.__imul__ registers
+    _populate_solver([self]), then `1.0 / coefficient` raises ZeroDivisionError with the zeroed stoichiometry left behind and no
+    inverse registered: the DEFECT reported in contracts/c12_rxn_arith.py; in the /repo tree this module was developed against the
+    body is still the unrepaired one and that contract's obligations `exit=raise:ZeroDivisionError/unexpected-exception`, `post.10`
+    fail in the C03 run - independently of this module).
+
+KERNEL MUTANTS the glue rests on (tools/mutate_and_run.sh against contracts.c03_context, each must NOT verify - the glue lemmas
+themselves are closed formulas over contracts and have the hypothesis-dropping / wrong-statement guards instead):
+  context.py  wrapper: the registration moved AFTER `func(self, new_value)` ........ resettable.wrapper in_model:changed_value post (sat, both exits)
+  context.py  wrapper: partial(func, self, new_value) .............................. resettable.wrapper in_model:changed_value post.2 (sat)
+  context.py  reset: `self._history.pop(0)` (first-in-first-out) ................... HistoryManager.reset loop#0/inv-preserve (unknown)
+  model.py    __exit__: `self._contexts.pop(0)` (the outermost context) ............ Model.__exit__ innermost_context post.2 (sat)
+  context.py  __call__: `self._history.insert(0, operation)` ....................... HistoryManager.__call__ post.2, post.3 (sat)
+  model.py    __exit__: the stack is not hidden while the undos run ................ Model.__exit__ exit/context-stack-hidden-while-undoing (sat)
 
 GUARDS (run when `lemmas()` builds the obligations; a failed guard raises): for every lemma the hypotheses are satisfiable or at
 least not refuted (`False` does not follow), and for every hypothesis marked droppable the lemma WITHOUT it is not provable (the
@@ -291,7 +305,7 @@ class View:
 
 
 VIEWS = {"ref->ref": View("rr", [Ref], Ref), "ref->bool": View("rb", [Ref], B_), "ref->ref->bool": View("rrb", [Ref, Ref], B_),
-         "ref->real": View("rq", [Ref], R_), "ref->ref->real": View("rrq", [Ref, Ref], R_)}
+         "ref->real": View("rq", [Ref], R_), "ref->ref->real": View("rrq", [Ref, Ref], R_), "ref->int": View("ri", [Ref], I_)}
 
 
 def _closed_form(out):
@@ -491,6 +505,55 @@ def _knock_outs(out):
            z3.ForAll([y], z3.And(lbk2[y] == lbk0[y], lbv2[y] == lbv0[y]), patterns=[lbk2[y]]))
 
 
+def _unfold(h, n, w, eqs):
+    """run(h, n, w) for a CONCRETE n, with every unfolding step added to `eqs` as a ground equality -> the fully unfolded term"""
+    if n == 0:
+        eqs.append(run(h, 0, w) == w)
+        return w
+    inner = eff(h[n - 1], w)
+    eqs.append(run(h, n, w) == run(h, n - 1, inner))
+    return _unfold(h, n - 1, inner, eqs)
+
+
+def _negative_guards():
+    """wrong variants of the statements must NOT be provable: a counter-model is asked for (`sat`) with the two quantified axioms
+    of `run` replaced by the complete ground unfolding of every run-term that occurs (a model of these ground equalities extends
+    to a model of the recursive definition: define run by the recursion everywhere else) - recorded in GUARDS, anything but `sat`
+    raises"""
+    h, h2 = z3.Const("ng_h", SeqRef), z3.Const("ng_h2", SeqRef)
+    w = z3.Const("ng_w", World)
+    tests = {}
+    # the segment lemma in first-in-first-out order, n = k = 1: run(h, 2, w) = run(h2, 1, run(h, 1, w)) with h[1] = h2[0]
+    eqs = []
+    _unfold(h, 2, w, eqs)
+    _unfold(h, 1, w, eqs)
+    _unfold(h2, 1, run(h, 1, w), eqs)
+    tests["run/segment in FIFO order (n = k = 1) has a counter-model"] = eqs + [h[1] == h2[0], run(h, 2, w) != run(h2, 1, run(h, 1, w))]
+    # the closed form WITHOUT the consistency hypothesis: two writes of different constants to one cell
+    V, U = VIEWS["ref->bool"], z3.Const("ng_U", SeqRef)
+    eqs = []
+    _unfold(U, 2, w, eqs)
+    w1 = eff(U[1], w)
+    w2 = eff(U[0], w1)
+    step = lambda u, a, b: V.view(b) == z3.If(V.wr(u), _wr(V.view(a), V.cells(u), V.val(u)), V.view(a))  # noqa
+    tests["closed form without `same cell, same constant` has a counter-model"] = eqs + [
+        step(U[1], w, w1), step(U[0], w1, w2), V.wr(U[0]), V.wr(U[1]), V.cell[0](U[0]) == V.cell[0](U[1]), V.val(U[0]) != V.val(U[1]),
+        z3.Not(V.closed(U, z3.IntVal(2), w_from=w))]
+    # CI/step with the new entry put in FRONT of the history (n = k = 1)
+    s, s1, se = (z3.Const(x, World) for x in ("ng_s", "ng_s1", "ng_se"))
+    u = z3.Const("ng_u", Ref)
+    eqs = []
+    _unfold(h, 1, s, eqs)
+    _unfold(h2, 2, s1, eqs)
+    tests["CI/step with the new entry put in FRONT of the history has a counter-model"] = eqs + [
+        run(h, 1, s) == se, h2[0] == u, h2[1] == h[0], eff(u, s1) == s, run(h2, 2, s1) != se]
+    for nm, fs in tests.items():
+        v = _probe(fs)
+        GUARDS["negative / " + nm] = v
+        if v != "sat":
+            raise RuntimeError(f"c03_glue: no counter-model for a deliberately wrong statement ({v}): " + nm)
+
+
 _NATIVE = """native trials (/venv/bin/python against /repo, 3 reactions / 2 genes, glpk): inside `with model:` each of
 r.lower_bound = nan | r.upper_bound = nan | r.bounds = (nan, nan) | (0, nan)  (optlang raises AFTER _lower_bound / _upper_bound were
 assigned: the partial change stays visible inside the block), r.lower_bound = 20 > ub | None | "3" | True, r.bounds = (1,) | ("a", "b")
@@ -512,4 +575,5 @@ def lemmas():
     _uvb_map_is_c01s(out)
     _one_cell_setters(out)
     _knock_outs(out)
+    _negative_guards()
     return out
